@@ -310,6 +310,7 @@ func (m *Machine) newRequest(method, url, body Value) Value {
 	m.setField(c, t, "Method", method)
 	m.setField(c, t, "Header", &MapV{})
 	m.setField(c, t, "Proto", "HTTP/1.1")
+	m.setField(c, t, "Host", url) // the harness transport routes on it
 	if bi, ok := body.(Iface); ok && bi.T != nil {
 		if p, ok := bi.V.(Ptr); ok && p != nil {
 			if b, ok := m.bufs[p]; ok {
